@@ -231,16 +231,26 @@ GSubs == <<
     [flagkey |-> "enabled"] @@ SchemaF(<< <<"x", With(IntF, [hasmin |-> TRUE, min |-> 1, hasmax |-> TRUE, max |-> 9, required |-> TRUE, default |-> IntV(2)])>>,
                                           <<"enabled", With(BoolF, [default |-> BoolV(FALSE)]) @@ [flag |-> TRUE]>> >>) >>
 GNodes == GLeaves \o GSubs
-NG == Len(GNodes)
+NG == 30
+ASSUME NG = Len(GNodes)
 GFirst == SchemaF(<< <<"a", With(IntF, [hasmin |-> TRUE, min |-> 1, hasmax |-> TRUE, max |-> 9, default |-> IntV(5)])>>,
                      <<"s", With(StringF, [tcase |-> "lower", stripm |-> "ws", default |-> s(<<"a", "b">>)])>> >>)
-MCFamily2 == [i \in 1..(NG * NG) |-> SchemaF(<< <<"a", GNodes[((i - 1) \div NG) + 1]>>, <<"s", GNodes[((i - 1) % NG) + 1]>> >>)]
+\* index 1 is GFirst; 2 .. NG*NG+1 the grid (GFirst's own grid position is explored twice)
+MCFamilyN2 == NG * NG + 1
+MCFamilyAt2(i) == IF i = 1 THEN GFirst
+                  ELSE SchemaF(<< <<"a", GNodes[((i - 2) \div NG) + 1]>>, <<"s", GNodes[((i - 2) % NG) + 1]>> >>)
 \* three keys: a sub-schema, a leaf, anything
-MCFamily3 == MCFamily2 \o [i \in 1..(Len(GSubs) * Len(GLeaves) * NG) |->
-                 SchemaF(<< <<"a", GSubs[((i - 1) \div (Len(GLeaves) * NG)) + 1]>>,
-                            <<"s", GLeaves[(((i - 1) \div NG) % Len(GLeaves)) + 1]>>,
-                            <<"d", GNodes[((i - 1) % NG) + 1]>> >>)]
-MCNoFamily == <<>>
+NS3 == 7   \* sub-schema shapes
+NL3 == 23  \* leaf shapes
+ASSUME NS3 = Len(GSubs) /\ NL3 = Len(GLeaves)
+MCFamilyN3 == MCFamilyN2 + NS3 * NL3 * NG
+MCFamilyAt3(i) == IF i <= MCFamilyN2 THEN MCFamilyAt2(i)
+                  ELSE LET j == i - MCFamilyN2 IN
+                       SchemaF(<< <<"a", GSubs[((j - 1) \div (NL3 * NG)) + 1]>>,
+                                  <<"s", GLeaves[(((j - 1) \div NG) % NL3) + 1]>>,
+                                  <<"d", GNodes[((j - 1) % NG) + 1]>> >>)
+MCFamilyN1 == 1
+MCFamilyAt1(i) == TheSchema
 \* replay sample: every FAM_STRIDE-th schema (environment of the TLC run)
 \* C02 replay aid: the second step of an exported behaviour is a round trip (format FAM_FMT) of
 \* whatever state the first step produced
@@ -256,8 +266,13 @@ NextThenReset ==
     \/ steps = 0 /\ Next
     \/ steps >= 1 /\ \E n \in Names, pk \in DOMAIN SetCandsNow : Tick /\ Reset(n, pk)
 \* plus the "diagonal" (both keys of the same node shape), so that every shape is replayed by every run
-DiagSids == {i \in DOMAIN FamilySeq : Len(FamilySeq[i].fields) = 2 /\ FamilySeq[i].fields[1][2] = FamilySeq[i].fields[2][2]}
-SidSample == (sid % atoi(IOEnv.FAM_STRIDE)) = atoi(IOEnv.FAM_PHASE) \/ sid \in DiagSids
+IsDiagSid(i) == i >= 2 /\ i <= MCFamilyN2 /\ ((i - 2) \div NG) = ((i - 2) % NG)
+\* (FAM_PARTS / FAM_PART: the sample is exported by several TLC processes side by side)
+SidOk(i) == /\ (i % atoi(IOEnv.FAM_STRIDE)) = atoi(IOEnv.FAM_PHASE) \/ IsDiagSid(i)
+            /\ (i % atoi(IOEnv.FAM_PARTS)) = atoi(IOEnv.FAM_PART)
+SidSample == SidOk(sid)
+\* (the initial predicate of the sampled exports: only the sampled schemas are ever built)
+InitSample == \E i \in {j \in 1..FamilyN : SidOk(j)} : InitOf(i)
 
 (* ---- instance B: the textual and numeric field classes inside a configuration (C01, C06, C12) ---- *)
 NestB == SchemaF(<< <<"addr", With(IPv4AddrF, [default |-> s(<<"1", "0", ".", "0", ".", "0", ".", "1">>)])>>, <<"cnt", With(IntF, [hasmin |-> TRUE, min |-> 1, default |-> IntV(1)])>> >>)
